@@ -12,7 +12,7 @@
 From Coq Require Import List Arith Bool NArith.
 From FFSM2 Require Import Model.TaskList Model.BitArray Model.BitStream Model.Plan Model.Ancestors Model.Machine
   Proofs.BitArrayProofs Proofs.TaskListProofs Proofs.TaskListRun Proofs.PlanProofs Proofs.MachineFrame Proofs.MachinePlan Proofs.MachineLife Proofs.GuardProofs Proofs.CycleProofs Proofs.PlanStep
-  Proofs.SerialProofs Proofs.LogProofs Proofs.MachineTop Model.Multi Generated.InitFacts Proofs.ConstructProofs Proofs.LifeMonitor Proofs.ActivationRounds Proofs.IndexSafety Proofs.FeatureProofs Model.Script Proofs.Contract Proofs.Histories Proofs.StatusBits.
+  Proofs.SerialProofs Proofs.LogProofs Proofs.MachineTop Model.Multi Generated.InitFacts Proofs.ConstructProofs Proofs.LifeMonitor Proofs.ActivationRounds Proofs.IndexSafety Proofs.FeatureProofs Model.Script Proofs.Contract Proofs.Histories Proofs.StatusBits Proofs.Worlds Model.Cxx Generated.LeafCode Proofs.LeafTactics Proofs.LeafConsts Proofs.LeafCodeTaskList.
 Import ListNotations.
 
 (* at most SUBSTITUTION_LIMIT guard rounds per processing step, whatever the guards do *)
@@ -166,12 +166,12 @@ Theorem C04_every_immediate_change_of_every_history :
                    | None => OImmChange P d
                    end in
          ops_ok P cfg orc (construct P cfg orc lg) (pre ++ op :: post) ->
-         let s := run P cfg orc lg pre in
+         let s := Machine.run P cfg orc lg pre in
          let a := active P (co P s) in
          let s0 := change_to P cfg d p s in
          let rounds := loop_rounds P cfg orc (c_limit cfg) (t_empty P) s0 in
          let surv := last_survivor P rounds in
-         let s' := run P cfg orc lg (pre ++ [op]) in
+         let s' := Machine.run P cfg orc lg (pre ++ [op]) in
          a < c_n cfg /\
          d < c_n cfg /\
          length rounds <= c_limit cfg /\
@@ -188,12 +188,12 @@ Theorem C04_every_cycle_of_every_history :
          wf_cfg cfg ->
          wf_oracle P cfg orc ->
          forall (lg : bool) (pre : list (api_op P)) (op : api_op P) (post : list (api_op P))
-           (mpre mmid mpost : method),
+           (mpre mmid mpost : Ancestors.method),
          ops_ok P cfg orc (construct P cfg orc lg) (pre ++ op :: post) ->
          is_cycle_op P op = Some (mpre, mmid, mpost) ->
-         let s := run P cfg orc lg pre in
+         let s := Machine.run P cfg orc lg pre in
          let a := active P (co P s) in
-         let s' := run P cfg orc lg (pre ++ [op]) in
+         let s' := Machine.run P cfg orc lg (pre ++ [op]) in
          a < c_n cfg /\
          Inv P cfg s' /\
          active P (co P s') < c_n cfg /\
@@ -218,11 +218,11 @@ Theorem C04_every_processing_step_of_every_history :
          forall (lg : bool) (pre : list (api_op P)) (op : api_op P) (post : list (api_op P)),
          ops_ok P cfg orc (construct P cfg orc lg) (pre ++ op :: post) ->
          is_processing_op P op = true ->
-         let s := run P cfg orc lg pre in
+         let s := Machine.run P cfg orc lg pre in
          let a := active P (co P s) in
          exists s5 : mstate P,
            Ready P cfg s5 a /\
-           run P cfg orc lg (pre ++ [op]) = process_request P cfg orc s5 /\
+           Machine.run P cfg orc lg (pre ++ [op]) = process_request P cfg orc s5 /\
            (exists l : list (event P), tr P s5 = l ++ tr P s /\ MachineFrame.quiet P cfg a l).
 Proof. exact (every_processing_step_of_every_history). Qed.
 Print Assumptions C04_every_processing_step_of_every_history.
